@@ -20,11 +20,15 @@ import (
 
 // Step is one step of a C11 history.
 type Step struct {
-	On   int    `json:"on"`             // 0 = parent, 1.. = view index
-	Set  string `json:"set,omitempty"`  // "", "umask", "user", (Chdir is an ordinary op)
-	Val  int    `json:"val,omitempty"`  // umask value / user index (0 admin, 1 u1, 2 u2)
-	Op   fsx.Op `json:"op,omitempty"`
-	Adv  bool   `json:"adv,omitempty"` // adversarial path: only confinement is asserted
+	On  int    `json:"on"`            // 0 = parent, 1.. = view index
+	Set string `json:"set,omitempty"` // "", "umask", "user", (Chdir is an ordinary op)
+	Val int    `json:"val,omitempty"` // umask value / user index (0 admin, 1 u1, 2 u2)
+	Op  fsx.Op `json:"op,omitempty"`
+	Adv bool   `json:"adv,omitempty"` // adversarial path: only confinement is asserted
+	// Detach: the administrator removes, through the parent, the directory a view is rooted at
+	// or an ancestor of it (Op is that RemoveAll). Last step of a history: the view has no
+	// directory left, the one thing asserted is that the removal is visible through it.
+	Detach bool `json:"detach,omitempty"`
 }
 
 // Case is a replayable C11 case.
@@ -44,8 +48,8 @@ type side struct {
 }
 
 type inst struct {
-	p, q   *memfs.MemFS // parent of instance 1, twin parent of instance 2
-	sides  []*side      // sides[0] = parent, then views (instance 1)
+	p, q   *memfs.MemFS  // parent of instance 1, twin parent of instance 2
+	sides  []*side       // sides[0] = parent, then views (instance 1)
 	qr     []*fsx.Runner // one mirror runner per side on the twin (separate handle tables)
 	users1 []avfs.UserReader
 	users2 []avfs.UserReader
@@ -263,6 +267,9 @@ func (in *inst) step(c *vt.Ctx, st Step) *vt.Deviation {
 		}
 		return checkOthers()
 	}
+	if st.Detach {
+		return in.detach(c, st, mk)
+	}
 	o := st.Op
 	out := s.r.Do(o)
 	if out.Err == "PANIC" && out.Val != "nil-handle" {
@@ -319,6 +326,44 @@ func (in *inst) step(c *vt.Ctx, st Step) *vt.Deviation {
 		want := restrict(sq, vs.dir)
 		if p, f, l, r, same := fsx.Diff(got, want); !same {
 			return mk("subtree", fmt.Sprintf("view %d (dir %q) differs from the parent's subtree at %s (%s): view %q, parent %q", i+1, vs.dir, p, f, l, r))
+		}
+	}
+	return nil
+}
+
+// detach: "changes to the tree made through the parent are immediately visible to the view" for
+// the change that takes the view's own directory away. What the view shows for "/" afterwards is
+// not specified (there is no directory left to show), but everything that was below it has been
+// removed: no former path may still resolve through the view, and its listing must be empty.
+func (in *inst) detach(c *vt.Ctx, st Step, mk func(clause, detail string) *vt.Deviation) *vt.Deviation {
+	before := map[int]fsx.Snap{}
+	for i, vs := range in.sides[1:] {
+		before[i+1] = snap(vs.v, "/")
+	}
+	_ = in.p.SetUser(in.users1[0])
+	out := in.sides[0].r.Do(st.Op)
+	_ = in.p.SetUser(in.users1[in.sides[0].user])
+	if out.Err != "ok" {
+		return mk("outcome", fmt.Sprintf("RemoveAll by the administrator -> %s", out))
+	}
+	if r := snap(in.p, "/").Lookup(st.Op.P); r != nil {
+		return mk("effect", "the removed directory is still there in the parent")
+	}
+	for i, vs := range in.sides[1:] {
+		if vs.dir != st.Op.P && !strings.HasPrefix(vs.dir, st.Op.P+"/") {
+			continue
+		}
+		c.Label("detached-view-checked")
+		for _, r := range before[i+1] {
+			if r.Path == "/" || r.Type == "" {
+				continue
+			}
+			if _, err := vs.v.Lstat(r.Path); err == nil {
+				return mk("detached-still-visible", fmt.Sprintf("the parent removed %s; through view %d (dir %q) the former %s still resolves", st.Op.P, i+1, vs.dir, r.Path))
+			}
+		}
+		if es, err := vs.v.ReadDir("/"); err == nil && len(es) > 0 {
+			return mk("detached-still-visible", fmt.Sprintf("the parent removed %s; view %d (dir %q) still lists %d entries in its root", st.Op.P, i+1, vs.dir, len(es)))
 		}
 	}
 	return nil
@@ -439,6 +484,22 @@ func TestCheck(t *testing.T) {
 					}
 				}
 				c.Label("step:" + st.Set + st.Op.K)
+			}
+		}
+		if rapid.IntRange(0, 3).Draw(t, "detach") == 0 {
+			var cands []string
+			for _, vs := range in.sides[1:] {
+				for d := vs.dir; strings.HasPrefix(d, "/w/"); d = path.Dir(d) {
+					cands = append(cands, d)
+				}
+			}
+			if len(cands) > 0 {
+				st := Step{On: 0, Detach: true, Op: fsx.Op{K: "RemoveAll", P: rapid.SampledFrom(cands).Draw(t, "detach-dir")}}
+				cs.Steps = append(cs.Steps, st)
+				if dev := in.step(c, st); dev != nil {
+					return &vt.Failure{Dev: dev, Replay: cs}
+				}
+				c.Label("step:detach")
 			}
 		}
 		if len(cs.Views) >= 2 && setters >= 1 && mutView >= 1 && mutParent >= 1 {
